@@ -215,28 +215,43 @@ func (ra *RouteAuthenticator) Authenticate(req *http.Request, route *MatchedRout
 		route.Authenticator = ra
 		return true, nil, nil
 	}
-	// iterate in proper order
+	// every scheme is consulted, so that the outcome does not depend on the order in which they are listed:
+	// a rejection by any scheme refuses the request, otherwise a scheme that does not apply makes the
+	// alternative not applicable, otherwise every scheme must have yielded a principal
 	var lastResult interface{}
+	var notApplicable, nilPrincipal bool
 	for _, scheme := range ra.Schemes {
-		if authenticator, ok := ra.Authenticator[scheme]; ok {
-			applies, princ, err := authenticator.Authenticate(&security.ScopedAuthRequest{
-				Request:        req,
-				RequiredScopes: ra.Scopes[scheme],
-			})
-			if !applies {
-				return false, nil, nil
-			}
-			if err != nil {
-				route.Authenticator = ra
-				return true, nil, err
-			}
-			lastResult = princ
-		} else {
+		authenticator, ok := ra.Authenticator[scheme]
+		if !ok {
 			// a scheme without a registered authenticator can never be satisfied
-			return false, nil, nil
+			notApplicable = true
+			continue
 		}
+		applies, princ, err := authenticator.Authenticate(&security.ScopedAuthRequest{
+			Request:        req,
+			RequiredScopes: ra.Scopes[scheme],
+		})
+		if !applies {
+			notApplicable = true
+			continue
+		}
+		if err != nil {
+			route.Authenticator = ra
+			return true, nil, err
+		}
+		if princ == nil {
+			nilPrincipal = true
+			continue
+		}
+		lastResult = princ
+	}
+	if notApplicable {
+		return false, nil, nil
 	}
 	route.Authenticator = ra
+	if nilPrincipal {
+		return true, nil, nil
+	}
 	return true, lastResult, nil
 }
 
